@@ -16,9 +16,9 @@ import uuid
 from harness import core, lexer, lit, tlc
 
 MARK = "zqz"
-ALPHABET = ["a", "1", " ", "'", '"', "`", "\\", "-", "/", "*", "%", "?", "$", ";", "\n", "\0", "é"]
+ALPHABET = ["a", "1", " ", "'", '"', "`", "\\", "-", "/", "*", "%", "?", "$", ";", "\n", "\0", "é", "{", "}"]
 CLASS = {"'": "squote", '"': "dquote", "`": "backtick", "\\": "backslash", "-": "dash", "/": "slash", "*": "star",
-         "%": "percent", "?": "qmark", "$": "dollar", ";": "semicolon", "\n": "newline", "\0": "nul", " ": "space"}
+         "%": "percent", "?": "qmark", "$": "dollar", ";": "semicolon", "\n": "newline", "\0": "nul", " ": "space", "{": "brace", "}": "brace"}
 
 
 def positions():
@@ -53,6 +53,20 @@ def positions():
     def setop(Q, v): return str(Q.from_(t).select(t.a).where(t.a == v).union(Q.from_(Table("u")).select(Table("u").a)))
     def delete(Q, v): return str(Q.from_(t).delete().where(t.a == v))
     def arith(Q, v): return str(Q.from_(t).select(t.a).where(fn.Concat(t.a, v) == "k"))
+    # arguments of analytic / aggregate functions with OVER / FILTER clauses, of CAST, of a custom function
+    def analytic_arg(Q, v):
+        from pypika_tortoise.terms import AnalyticFunction
+        return str(Q.from_(t).select(AnalyticFunction("LAG", t.a, 1, v).over(t.b).orderby(t.c)))
+    def analytic_partition(Q, v):
+        from pypika_tortoise import analytics as an
+        return str(Q.from_(t).select(an.Sum(t.a).over(fn.Coalesce(t.b, v)).orderby(t.c)))
+    def agg_filter(Q, v): return str(Q.from_(t).select(fn.Sum(t.a).filter(t.b == v)))
+    def agg_arg_filter(Q, v): return str(Q.from_(t).select(fn.Max(fn.Coalesce(t.a, v)).filter(t.b == 1)))
+    def custom_function(Q, v):
+        from pypika_tortoise import CustomFunction
+        return str(Q.from_(t).select(CustomFunction("F3", ["p", "q", "r"])(t.a, v, 2)))
+    def orderby_value(Q, v): return str(Q.from_(t).select(t.a).orderby(fn.Coalesce(t.b, v)))
+    def groupby_value(Q, v): return str(Q.from_(t).select(fn.Count("*")).groupby(fn.Coalesce(t.b, v)))
     # JSON operators: a dict / list operand becomes a JSON term (its own serialiser), a string a plain constant
     def json_contains(Q, v): return str(Q.from_(t).select(t.a).where(t.j.contains(v)))
     def json_contained_by(Q, v): return str(Q.from_(t).select(t.a).where(t.j.contained_by(v)))
@@ -65,7 +79,8 @@ def positions():
     return {f.__name__.rstrip("_"): f for f in (sel, where, where_ne, isin, insert, insert_cols, set_, set_where, func,
                                                   case_then, case_else, case_when, default, upsert, between, having,
                                                   like, join_on, subq, setop, delete, arith,
-                                                  json_contains, json_contained_by, json_has_key, json_path, json_term)}
+                                                  json_contains, json_contained_by, json_has_key, json_path, json_term,
+                                                  analytic_arg, analytic_partition, agg_filter, agg_arg_filter, custom_function, orderby_value, groupby_value)}
 
 
 # positions whose operand is a document or a string only
@@ -228,6 +243,7 @@ def run(tier: str) -> int:
     if tier == "quick":
         # length 3 only around the characters that matter for escaping
         hot = ["'", "\\", '"', "a"]
+        strings += ["{partition_sql}", "{}", "{0}", "{function}", "%(x)s", "{'a': 1}", "{{x}}", "}{"]
         strings += ["".join(p) for p in itertools.product(hot, repeat=3)]
     uni = [chr(rnd.choice([rnd.randint(1, 0x7f), rnd.randint(0x80, 0x7ff), rnd.randint(0x800, 0xd7ff), rnd.randint(0x10000, 0x10ffff)]))
            for _ in range(400)]
